@@ -345,6 +345,13 @@ class HCreateSolutionFrom(Handler):
         # total
         got_total = R.measure(new.contents, qb)
         tol = K * (H1.storage_noise_in(new.contents, qb) * 3 + H1.request_quantum(qb, new.contents) * 3) + (1e-7 + rel_obs) * abs(qv)
+        if qb != 'L':
+            # the portions are taken by volume, each rounded to what the volume storage unit resolves: under litre storage
+            # 0.1 mL of a 56 mol/L stock is known to 1e-10 L = 5.6e-9 mol (follows from the storage units, like item 46 of §15)
+            def per_litre(c):
+                lit = R.measure(c.contents, 'L')
+                return R.measure(c.contents, qb) / lit if lit > 0 else 0.0
+            tol += K * H1.request_quantum('L', source.contents) * (per_litre(source) + (per_litre(solvent) if container_solvent else 0.0))
         if not M.ratio('FROM.total', got_total, qv, tol):
             bad = True
             M.violate(['C12'], 'FROM', f'C12:total_quantity_not_met:q={qb}:{skind}',
